@@ -39,7 +39,7 @@ reg(P(
 
 reg(P(
     "C11", "Names resolve to the innermost visible earlier definition",
-    [("B5", ALL), ("V1", {"reference"}), ("B1", ALL), ("C5", {"owner", "qualifier"})],
+    [("B5", ALL), ("V1", {"reference"}), ("B1", ALL), ("C5", {"owner", "qualifier"}), ("A7", {"key"})],
     "lookup walks the current file's slice of the scope stack innermost first and returns the first hit; scopes become members only when complete; dotted names descend only through scopes; an import is pushed under its `as` name exactly for the 4-symbol alternative; the object found is the one stored in the field/array/alias (V1); the generators name the resolved definition and no like-named one: the reverse lookup Scope.get_name_by_member compares by identity (B5), the C name prefix is the one of the file the definition is bound to and an imported definition is qualified with the name the importing file gave the import (C5 parts owner / qualifier).",
     "no schema is compiled; the behaviour of dict/list primitives is trusted.",
 ))
@@ -67,14 +67,14 @@ reg(P(
 
 reg(P(
     "C20", "Lint is advisory and diagnostics point at the right line",
-    [("A6", ALL), ("A11", ALL), ("C7", ALL), ("B2", ALL), ("A5", {"check-only", "fatal"}), ("A1", {"lint"}), ("A7", {"memo-results"})],
+    [("A6", ALL), ("A11", ALL), ("C7", ALL), ("B2", ALL), ("A5", {"check-only", "fatal"}), ("A1", {"lint"}), ("A7", {"memo-results"}), ("A8", {"filepath"})],
     "lint and renderers never write the AST (A6) and never change in place a list a memoised AST query handed out (A7 part memo-results); every rule is registered, targets a supported type and cites the checked definition (A11); each rule tests its kind's convention with the right polarity (C7); positions come from tracked symbols, node token/column/line refer to the name symbol, the newline rule is the only line counter and no other token can swallow a newline, the diagnostic template contains file and L<line> (B2); check-only exits non-zero iff an error or a warning (A5).",
     "column arithmetic of _get_col; behaviour of pascal_case/snake_case on arbitrary words.",
 ))
 
 reg(P(
     "C01", "Python encoder emits exactly the specified bit layout",
-    [("D5", {"ast", "py", "common"}), ("A4", {"ast", "py"}), ("D1", {"py"}), ("E1", {"py"}), ("C3", {"py", "ast"}), ("D3", {"py"}), ("D6", {"py", "py-array-default"}), ("D7", {"py"}), ("C4", {"py"}), ("R1", {"py"}), ("B5", ALL), ("V1", {"reference"})],
+    [("D5", {"ast", "py", "common"}), ("A4", {"ast", "py"}), ("D1", {"py"}), ("E1", {"py"}), ("C3", {"py", "ast"}), ("D3", {"py"}), ("D6", {"py", "py-array-default"}), ("D7", {"py"}), ("C4", {"py"}), ("R1", {"py"}), ("B5", ALL), ("V1", {"reference"}), ("A7", {"key"})],
     "size arithmetic equals the specification and BYTES_LENGTH / the encode allocation come from Message.nbytes() (D5); the processor list and dataclass fields are emitted in ascending field-number order (A4); the single-chunk encoder of bp.py equals the layout rule's normal form - stream byte i div 8, value byte 8*(j div 8), shift j mod 8 - i mod 8, mask 2^(i mod 8 + c) - 2^(i mod 8), OR store (D1) - and the chunk size satisfies 1 <= c <= 8, fits both bytes and never exceeds the field (E1); prefix: 16 bits, written before the children, carrying nbits/capacity (C3, D3); generated getters return (field >> rshift) for the field with that number and array depth (D6); alias/enum processors only delegate (D7); generator/runtime constructor arguments agree positionally (C4).",
     "that the composition of these yields the exact bytes for every schema and value (nothing is executed; no proof of the whole encoder).",
 ))
@@ -103,14 +103,14 @@ reg(P(
 
 reg(P(
     "C19", "Go standard-mode output describes the same messages as the Python output",
-    [("D6", {"go"}), ("A2", {"go", "common"}), ("A4", {"go", "ast"}), ("C2", {"generator", "go"}), ("D5", {"go", "ast", "common"}), ("D4", {"go"}), ("D1", {"go"}), ("E1", {"go"}), ("D3", {"go"}), ("D7", {"go"}), ("C3", {"go"}), ("C4", {"go"}), ("G1", ALL), ("R1", {"go"})],
+    [("D6", {"go"}), ("A2", {"go", "common"}), ("A4", {"go", "ast"}), ("C2", {"generator", "go"}), ("D5", {"go", "ast", "common"}), ("D4", {"go"}), ("D1", {"go"}), ("E1", {"go"}), ("D3", {"go"}), ("D7", {"go"}), ("C3", {"go"}), ("C4", {"go"}), ("G1", ALL), ("R1", {"go"}), ("A7", {"key"})],
     "Go struct fields and processor list in ascending field-number order (A4) with the smallest covering integer types (C2); size constant and Size() from Message.nbytes() (D5); processor constructors agree positionally with the runtime's New* functions (C4); byte accessors address the field by number and array depth, widen before the left shift and narrow after the right shift, conversion type = leaf type / alias name (D6); shift-pair sign extension exactly for widths narrower than storage (D4); the Go runtime's chunk helpers, loop and extensible processors reach the same normal forms as the specification, hence as Python's (D1, E1, D3, D7, C3, G1).",
     "that generated Go compiles (no Go toolchain in the sandbox).",
 ))
 
 reg(P(
     "C03", "C standard mode writes/reads the same bytes as the specification and Python",
-    [("A4", {"c", "ast"}), ("CC4", ALL), ("A2", {"c", "common"}), ("CA2", ALL), ("C2", {"generator", "c"}), ("CC2", ALL), ("EC3", ALL), ("CD4", ALL), ("EC1", ALL), ("EC2", ALL), ("D5", {"ast", "c", "common"}), ("C3", {"ast"}), ("R1", {"c"}), ("B5", ALL), ("V1", {"reference"})],
+    [("A4", {"c", "ast"}), ("CC4", ALL), ("A2", {"c", "common"}), ("CA2", ALL), ("C2", {"generator", "c"}), ("CC2", ALL), ("EC3", ALL), ("CD4", ALL), ("EC1", ALL), ("EC2", ALL), ("D5", {"ast", "c", "common"}), ("C3", {"ast"}), ("R1", {"c"}), ("B5", ALL), ("V1", {"reference"}), ("A7", {"key"})],
     "generator side: descriptor array in ascending field-number order (A4); format_bp_* templates, constructor macros and struct members agree positionally, sizes are sizeof of the same node's C type, the k-th descriptor carries address, type and name of the same field (CC4); dispatch chains cover their domains (A2). Runtime side, both build variants: every flag switch covers the flags its callers can pass and routes them to the right routine (CA2); storage partitions agree with the generator (C2, CC2); extensible processors, prefix coders, cursor advance, encode/decode orientation of the copier calls (EC3); sign extension cases (CD4); bit copier: on all paths x all 64 (si, di): 1 <= c <= n, word loads/stores inside the field's bytes, `=` stores only at di = 0, partial stores masked to c bits (EC1); batch path only for storage-sized integer elements (EC2).",
     "bit-exactness of the C partial-byte expressions beyond the mask form; byte-for-byte equality with Python; compiler optimisation levels.",
 ))
@@ -145,21 +145,21 @@ reg(P(
 
 reg(P(
     "C12", "The wire format depends only on field numbers and resolved types",
-    [("F3", ALL), ("A4", ALL), ("D5", {"ast"}), ("D7", ALL), ("EC3", ALL), ("V1", {"reference"}), ("D2", ALL), ("D6", {"py", "go"}), ("B4", ALL), ("R1", ALL), ("D3", ALL), ("A7", {"key"})],
+    [("F3", ALL), ("A4", ALL), ("D5", {"ast"}), ("D7", ALL), ("EC3", ALL), ("V1", {"reference"}), ("D2", ALL), ("D6", {"py", "go"}), ("B4", ALL), ("R1", ALL), ("D3", ALL), ("A7", {"key"}), ("B5", ALL), ("F6", ALL)],
     "layout-bearing computations (size arithmetic, planner, processor/descriptor constructors) read only number / cap / extensible / type attributes, never names, comments, positions or option values; comment / newline / semicolon actions build nothing (F3); declaration order is erased by sorting on the integer field number at every order-sensitive site (A4); Alias.nbits is the target's and alias processors only delegate in all three runtimes (D5, D7, EC3); the resolved definition object is what a field stores, wherever it was declared (V1); alias transparency of the generators: for every type shape reached through an alias the optimization-mode statements and the generated accessors are the ones of the aliased type, with the alias name only where the target language needs a conversion (D2 scenarios Alias->leaf incl. the unsigned working type, D6 shapes alias(...)); a literal and a constant expression of equal value are the same to the rest of the compiler because operator precedence and associativity are the usual ones (B4); the runtimes keep nothing between fields or calls that could make the bytes depend on the numbers themselves rather than their order: no module / package / file-scope state is written (R1) and every field is processed with a fresh indexer built from its own number (D3).",
     "byte equality of two compilations.",
 ))
 
 reg(P(
     "C14", "Every width x bit-offset x signedness combination is bit-exact in every runtime",
-    [("E1", ALL), ("D1", ALL), ("EC1", ALL), ("EC2", ALL), ("C2", ALL), ("CC2", ALL), ("D4", ALL), ("CD4", ALL), ("G1", ALL), ("D2", ALL), ("R1", ALL), ("CC4", ALL), ("D6", {"py-array-default"})],
+    [("E1", ALL), ("D1", ALL), ("EC1", ALL), ("EC2", ALL), ("C2", ALL), ("CC2", ALL), ("D4", ALL), ("CD4", ALL), ("G1", ALL), ("D2", ALL), ("R1", ALL), ("CC4", ALL), ("D6", {"py-array-default"}), ("A7", {"key"})],
     "the obligations are parametric in (n, si, di), which is this property's space: chunk bounds for Python/Go/planner (E1) and the chunk plan (D1); the C copier's obligations on every path for all 64 (si, di) pairs and every n in the path's interval, both build variants (EC1); batch predicate (EC2); storage partitions (C2, CC2); sign extension sites incl. bp.intN thresholds and the C cases (D4, CD4); the storage size the C runtime's sign extension and array stride rely on is sizeof(the C type) in every generated descriptor (CC4); generated accessors and default values per type shape, incl. one fresh object per array element (D6).",
     "bit-exactness of the C partial-byte expressions beyond their mask form.",
 ))
 
 reg(P(
     "C16", "JSON output is valid JSON that states the message's values",
-    [("CJ", ALL), ("CC2", {"c"}), ("CA2", ALL), ("A4", {"c", "py", "ast"}), ("CC4", {"template"}), ("C8", ALL), ("D6", {"py"})],
+    [("CJ", ALL), ("CC2", {"c"}), ("CA2", ALL), ("A4", {"c", "py", "ast"}), ("CC4", {"template"}), ("C8", ALL), ("D6", {"py"}), ("A7", {"key"})],
     "C: object/array wrapping, \"name\": keys from the field descriptors, separator iff another item follows, bool words with the right polarity, bytes as unsigned numbers, append discipline (CJ); per-width cast classes equal the storage and the conversion letter matches signedness (CC2); the JSON switches cover their domains (CA2); descriptor order = field-number order with the same field's name (A4, CC4). Python: every type a generated field can have is serialisable by to_json, to_dict filters the enum proxy attributes through the generated dict_factory, dataclass fields in field-number order (C8, A4, D6).",
     "equality of printed values; printf length modifiers (platform dependent, not judged).",
 ))
